@@ -250,6 +250,16 @@ def gen_direct_sig(rng):
                         attrs['deferrable'] = rng.choice(
                             [Deferrable.DEFERRED, Deferrable.IMMEDIATE])
                         feats.add('deferrable')
+                    if rng.random() < 0.3:
+                        # UniqueConstraint.deconstruct() yields tuples here
+                        attrs['include'] = rng.choice([('c',), ('b', 'c'),
+                                                       ['c']])
+                        feats.add('unique_constraint_include')
+                    if rng.random() < 0.25:
+                        attrs['opclasses'] = rng.choice(
+                            [tuple(['int4_ops'] * len(attrs['fields'])),
+                             ['varchar_pattern_ops'] * len(attrs['fields'])])
+                        feats.add('unique_constraint_opclasses')
                     ctype = models.UniqueConstraint
                 msig.add_constraint_sig(ConstraintSignature(
                     name='c_%d_%d_%d' % (ai, mi, ci), constraint_type=ctype,
